@@ -32,8 +32,9 @@ ASSUMPTIONS = [
     "realign_correct / detect_by_alignment_finds: the read shows the carried allele with clean flanks: no other difference to the "
     "reference within `overhang` bases of the variant (as far as the read reaches; the window may end at the read end, at clips "
     "or at a reference skip)",
-    "reference-free, insertions/deletions: the indel is shown at the variant's normalised position, flanked by aligned bases; "
-    "the case 'insertion shown => REF not reported' is validated, not proved",
+    "reference-free, insertions/deletions: the indel is shown at the variant's normalised position, flanked by aligned bases "
+    "(C06_detect_noref_never_wrong); 'no allele for a non-overlapped variant' without reference is proved for the normalised "
+    "position (C06_detect_noref_within_span); in terms of the original record's footprint it is validated, not proved",
 ]
 
 HEADER = """From Coq Require Import ZArith List Bool Arith.
